@@ -212,7 +212,7 @@ fn pick_cfg(rng: &mut Rng, seed: u64, small: bool) -> EpCfg {
         tx: *rng.pick(sizes),
         mtu: *rng.pick(&[576usize, 1500, 1500, 9000, 296]),
         cc: rng.below(3) as u8,
-        ack_delay: if rng.chance(50) { Some(10) } else { None },
+        ack_delay: *rng.pick(&[None, None, Some(10u64), Some(10), Some(200), Some(900)]),
         nagle: rng.chance(50),
         ts: rng.chance(25),
         keep_alive: None,
@@ -311,7 +311,7 @@ pub fn pair(args: &Args) {
         let mut deadline = [eps[0].poll_at(now), eps[1].poll_at(now)];
         'sim: loop {
             steps += 1;
-            if steps > 400_000 {
+            if steps > 40_000 {
                 end = "steplimit";
                 break;
             }
@@ -435,10 +435,10 @@ pub fn pair(args: &Args) {
                 }
             }
             // C13 probe: an extra poll strictly before the deadline, nothing queued, no API call since
-            if probe && rng.chance(20) {
+            if probe && rng.chance(60) {
                 for e in 0..2 {
                     if deadline[e] > now + 1 && !flight.iter().any(|f| f.to == e && f.at <= now) {
-                        let at = now + rng.range(0, (deadline[e] - now - 1).min(5000) as u64) as i64;
+                        let at = if rng.chance(50) { deadline[e] - 1 } else { now + rng.range(0, (deadline[e] - now - 1).min(5000) as u64) as i64 };
                         // only probe when nothing else happens before `at`
                         let mut clear = true;
                         for f in &flight {
